@@ -681,10 +681,14 @@ class ExecMixin:
             if isinstance(s.target, ast.Name) and s.target.id in st.env:
                 return
             return
+        sup = self.suppress_obligations
+        self.suppress_obligations = True      # the next element may not exist: this binding is for invariants only, the body binds under it < n
         try:
             self.bind_target(s.target, el(it, st), st)
         except (OutOfSubset, PathEnd, KeyError):
             pass
+        finally:
+            self.suppress_obligations = sup
 
     def check_invariants(self, ls, st, label, node):
         for j, inv in enumerate(ls.invariant):
